@@ -36,7 +36,7 @@ Check (C11_export_sealed_blames :
 Check (C11_parametric_erasure_partial :
   forall x e T k l0 U d0 t,
     passes_only x e T -> is_svar U = false -> lift (OR d0 U) t t ->
-    lift (OR (fun _ => MkInt k (OR d0 U)) T)
+    lift (OR (fun _ => MkInt k (OR d0 U) (fun _ _ => False)) T)
          (Th [(x, Th [("%v", t)] (SealT k l0 (Var "%v")))] e)
          (Th [(x, t)] e)).
 Check (C11_erasure_both_terminate :
@@ -49,19 +49,19 @@ Check (C11_fundamental :
     forall G T, has_ty G e T -> forall p1 p2, env_rel d G p1 p2 -> lift (OR d T) (Th p1 e) (Th p2 e)).
 Check (C11_parametric_transparent :
   forall nv keys sg d0 T f p,
-    scoped nv T -> (forall i, is_svar (sg i) = false) -> has_ty [] f T ->
+    scoped nv T -> rows_ok sg T -> (forall i, is_svar (sg i) = false) -> has_ty [] f T ->
     lift (OR d0 (inst sg T))
          (Th p (Chk (foralls (var_keys keys nv) (sty_ctr keys T)) lbl0 f))
          (Th p f)).
 Check (C11_parametric_same_result :
   forall nv keys sg a b f arg p,
-    scoped nv (SFun a b) -> (forall i, is_svar (sg i) = false) ->
+    scoped nv (SFun a b) -> rows_ok sg (SFun a b) -> (forall i, is_svar (sg i) = false) ->
     has_ty [] f (SFun a b) -> has_ty [] arg (inst sg a) -> is_base (inst sg b) = true ->
     forall n r, eval cfg_real n p (App f arg) = r -> r <> OutOfFuel ->
       exists m, eval cfg_real m p (App (Chk (foralls (var_keys keys nv) (sty_ctr keys (SFun a b))) lbl0 f) arg) = r).
 Check (C11_parametric_annotation_same_result2 :
   forall sg a1 a2 b f arg1 arg2 p,
-    scoped 2 (SFun a1 (SFun a2 b)) -> (forall i, is_svar (sg i) = false) ->
+    scoped 2 (SFun a1 (SFun a2 b)) -> norow (SFun a1 (SFun a2 b)) -> (forall i, is_svar (sg i) = false) ->
     has_ty [] f (SFun a1 (SFun a2 b)) -> has_ty [] arg1 (inst sg a1) -> has_ty [] arg2 (inst sg a2) ->
     is_base (inst sg b) = true ->
     forall n r, eval cfg_real n p (App (App f arg1) arg2) = r -> r <> OutOfFuel ->
@@ -72,12 +72,18 @@ Check (C11_export_same :
     forall n r, export n t2 = r -> r <> OutOfFuel -> exists m, export m t1 = r).
 Check (C11_parametric_annotation_same_export2 :
   forall sg a1 a2 b f arg1 arg2,
-    scoped 2 (SFun a1 (SFun a2 b)) -> (forall i, is_svar (sg i) = false) ->
+    scoped 2 (SFun a1 (SFun a2 b)) -> norow (SFun a1 (SFun a2 b)) -> (forall i, is_svar (sg i) = false) ->
     has_ty [] f (SFun a1 (SFun a2 b)) -> has_ty [] arg1 (inst sg a1) -> has_ty [] arg2 (inst sg a2) ->
     data_ty (inst sg b) ->
     forall n r, run_data cfg_real n (App (App f arg1) arg2) = r -> r <> OutOfFuel ->
       exists m, run_data cfg_real m
                   (App (App (Ann (TForall "a" KType (TForall "b" KType (sty_ty names2 (SFun a1 (SFun a2 b))))) f) arg1) arg2) = r).
+Check (C11_parametric_same_export :
+  forall nv keys sg a b f arg,
+    scoped nv (SFun a b) -> rows_ok sg (SFun a b) -> (forall i, is_svar (sg i) = false) ->
+    has_ty [] f (SFun a b) -> has_ty [] arg (inst sg a) -> data_ty (inst sg b) ->
+    forall n r, run_data cfg_real n (App f arg) = r -> r <> OutOfFuel ->
+      exists m, run_data cfg_real m (App (Chk (foralls (var_keys keys nv) (sty_ctr keys (SFun a b))) lbl0 f) arg) = r).
 Check (C11_tail_guarded :
   forall n r e fs k l tfs t o,
     eval cfg_real n r e = Ok (VRec fs (RSeal k l tfs t)) ->
